@@ -858,6 +858,7 @@ func suiteStl(R *runner, r *rng) {
 
 	suiteStlFields(R, r, N)
 	suiteStlNeeds(R, r)
+	suiteStlOutside(R, r)
 }
 
 // read a generated file, write it again, decode: every timecode of a subtitle block is unchanged
